@@ -63,13 +63,23 @@ type Scheduler struct {
 
 	wake chan struct{}
 
+	// goroutines which existed when the scheduler was created (left over from an earlier run, e.g. workers of a
+	// pool which was told to shrink without waiting): they are neither named nor recorded
+	old map[int64]bool
+
 	// Bound for WaitStable.
 	StableTimeout time.Duration
 }
 
 // New creates a scheduler. controlled=false only records (free mode).
 func New(controlled bool) *Scheduler {
+	old := map[int64]bool{}
+	for gid := range GoroutineStates() {
+		old[gid] = true
+	}
+	delete(old, Goid())
 	return &Scheduler{
+		old:           old,
 		threads:       make(map[int64]*Thread),
 		byName:        make(map[string]*Thread),
 		controlled:    controlled,
@@ -95,6 +105,10 @@ func (s *Scheduler) Handle(point string, args ...interface{}) {
 	gid := Goid()
 	s.mu.Lock()
 	th := s.threads[gid]
+	if th == nil && s.old[gid] {
+		s.mu.Unlock()
+		return
+	}
 	if th == nil && s.NameOf != nil {
 		if name := s.NameOf(point, args); name != "" {
 			th = &Thread{Name: name, goid: gid, release: make(chan struct{})}
